@@ -36,8 +36,6 @@ from __future__ import annotations
 import itertools
 import re
 import tracemalloc
-from typing import List
-
 from hippolyzer.lib.base.message.udpdeserializer import UDPMessageDeserializer
 from hippolyzer.lib.base.message.udpserializer import UDPMessageSerializer
 
@@ -206,6 +204,13 @@ def _safe_hex(fn, data: bytes) -> str:
         return f"raised {e!r}"
 
 
+def _outcome_text(x: bytes) -> str:
+    try:
+        return f"returned {len(expand(x))} bytes"
+    except Exception as e:
+        return f"raised {e!r}"
+
+
 def _rle(x: bytes):
     out = []
     for b, g in itertools.groupby(x):
@@ -229,7 +234,8 @@ def _unit_A(arg):
     for n in range(0, max_len - len(prefix) + 1):
         for t in itertools.product(ENC_ALPHA, repeat=n):
             check_encode(part, prefix + b"".join(t), "A")
-    part.sample({"family": "A", "plain": (prefix + b"\x00\x00\x01").hex(), "compressed": _safe_hex(compress, prefix + b"\x00\x00\x01")}, limit=1)
+    if prefix == b"\x00\x01\xff\x00":
+        part.sample({"family": "A", "plain": (prefix + b"\x00\x00\x01").hex(), "compressed": _safe_hex(compress, prefix + b"\x00\x00\x01")}, limit=1)
     return part.dump()
 
 
@@ -308,6 +314,9 @@ def _unit_E(k):
     for fam, x in (("zeros", b"\x00" * k), ("00FF", b"\x00\xff" * k), ("0000FF", b"\x00\x00\xff" * k), ("zeros+FF", b"\x00" * k + b"\xff"),
                    ("lit+zeros", b"\x01" * 16 + b"\x00" * k), ("00FF+lone", b"\x00\xff" * k + b"\x00")):
         check_decode(part, x, "E", alloc=True)
+    if k in (2, 49, 65535):
+        x = b"\x00\x00\xff" * k
+        part.sample({"family": "E", "input": f"(00 00 ff) x {k}", "reference_length": ref_len(x), "expand": _outcome_text(x)}, limit=1)
     return part.dump()
 
 
